@@ -7,6 +7,12 @@ import gens
 W = lambda s: wr(St(s))          # write probe
 
 
+def shash(x):
+    """stable hash (Python's hash() of strings changes from process to process)"""
+    import zlib
+    return zlib.crc32(repr(x).encode())
+
+
 class Ids:
     def __init__(self, start=1):
         self.n = start - 1
@@ -216,6 +222,13 @@ def pure_family():
                             assign("sumev", fn(["n"], block([assign("s", I(0)), fr(["e"], [call("evens", N("n"))], assign("s", bin_("+", N("s"), N("e")))), N("s")])))], call("sumev", I(7))))
     fam.append(("strs", [assign("rep", fn(["s", "n"], block([assign("o", St("")), fr(["i"], [call("fromto", I(0), N("n"))], assign("o", bin_("+", N("o"), N("s")))), N("o")])))], call("rep", St("ab"), I(3))))
     fam.append(("retclos", [assign("mkc", fn(["a"], block([assign("z", bin_("*", N("a"), I(2))), fn([], bin_("+", N("z"), N("a")))]))), assign("usec", fn(["n"], block([assign("c", call("mkc", N("n"))), call("c")])))], call("usec", I(5))))
+    mkgen = assign("mkgen", fn(["lo", "hi"], fn([], block([assign("i", N("lo")), wh(bin_("<", N("i"), N("hi")), block([y(N("i")), assign("i", bin_("+", N("i"), I(1)))]))]))))
+    mkscale = assign("mkscale", fn(["a", "b"], fn(["x"], bin_("+", bin_("*", N("x"), N("a")), N("b")))))
+    fam.append(("closgen", [mkgen, mkscale, assign("gen", call("mkgen", I(0), I(6))), assign("scale", call("mkscale", I(2), I(3))),
+                            assign("total", fn([], block([assign("s", I(0)), fr(["v"], [call("gen")], assign("s", bin_("+", N("s"), call("scale", N("v"))))), N("s")])))], call("total")))
+    fam.append(("closgen-args", [mkgen, mkscale, assign("sumg", fn(["g", "f"], block([assign("s", I(0)), fr(["e"], [call("g")], assign("s", bin_("+", N("s"), call("f", N("e"))))), N("s")]))),
+                                 assign("sumtwo", fn(["n"], bin_("+", call("sumg", call("mkgen", I(0), N("n")), call("mkscale", I(1), I(100))), call("sumg", call("mkgen", I(1), N("n")), call("mkscale", I(3), I(0))))))],
+                call("sumtwo", I(3))))
     for n in (5, 130, 200):
         d, vs = wide_fn("wide%s" % "abc"[(5, 130, 200).index(n)], n, lambda vs: [assign("s", I(0)), fr(["i"], [call("fromto", I(0), N(vs[-1]))], assign("s", bin_("+", N("s"), I(1)))), bin_("+", N("s"), N(vs[0]))])
         fam.append(("wide%d" % n, [d], call(d["tgt"]["n"], I(2))))
@@ -254,7 +267,7 @@ def c03_families(tier, seed, ids=None):
     out = []
     ss = []
     for (fname, defs, c), (hname, hist) in itertools.product(fam, histories()):
-        if tier == "quick" and (hash((fname, hname, seed)) % 3 != 0) and hname not in ("none",):
+        if tier == "quick" and (shash((fname, hname, seed)) % 3 != 0) and hname not in ("none",) and not fname.startswith("closgen"):
             continue
         items = list(defs) + list(hist)
         seen_defs = set()
@@ -397,6 +410,20 @@ def c04_families(tier, seed, ids=None):
         combos = rnd.sample(combos, 220)
     ss = [c04_session(ids, *c) for c in combos]
     out = [("scoping shapes", ss, ("value",))]
+    # a call made in a loop body must not change what the iterator closure sees in its captured variable
+    upto = assign("upto", fn(["n"], fn([], block([assign("i", I(0)), wh(bin_("<", N("i"), N("n")), block([y(N("i")), assign("i", bin_("+", N("i"), I(1)))]))]))))
+    adder = assign("adder", fn(["k"], fn(["x"], bin_("+", N("x"), N("k")))))
+    sumf = assign("sumf", fn(["gen", "f"], block([assign("s", I(0)), fr(["e"], [call("gen")], assign("s", bin_("+", N("s"), call("f", N("e"))))), N("s")])))
+    ic = []
+    for n, k in ((3, 100), (2, 7), (5, 1)):
+        for pre in ([], [call("deep", I(6))], [call("sumf", call("upto", I(1)), N("id"))]):
+            for body in ("closure", "toplevel", "builtin"):
+                f = {"closure": call("adder", I(k)), "toplevel": N("id"), "builtin": N("toa")}[body]
+                items = [DEEP, IDF, upto, adder, sumf] + pre + [call("sumf", call("upto", I(n)), f), call("sumf", call("upto", I(n)), f), assign("g", call("upto", I(n))), assign("h", call("adder", I(k))),
+                         lst([call("sumf", N("g"), N("h")), call("sumf", N("g"), N("h")), call("h", I(1))]),
+                         assign("two", fn([], block([assign("a", call("sumf", N("g"), N("h"))), assign("b", call("sumf", N("g"), N("h"))), lst([N("a"), N("b")])]))), call("two"), call("two")]
+                ic.append(mk(ids, items, {"iterclosure": [n, k, len(pre), body]}))
+    out.append(("iterator closure vs calls in the loop body", ic, ("value",)))
     rs = gens.random_sessions(60 if tier == "quick" else 3000, seed, "c04", first_id=500000)
     out.append(("random nestings", rs, ("value",)))
     return out
@@ -442,7 +469,7 @@ def c05_families(tier, seed, ids=None):
                 combos.append((op, a, b))
     srcs = [("const", "const"), ("global", "const"), ("const", "global"), ("call", "call"), ("global", "call")]
     for (op, a, b) in combos:
-        for (sa, sb) in (srcs if tier == "thorough" else [srcs[hash((op, a, b, seed)) % len(srcs)]]):
+        for (sa, sb) in (srcs if tier == "thorough" else [srcs[shash((op, a, b, seed)) % len(srcs)]]):
             pa, ea = sourced(sa, TYPED_ATOMS[a], "ga")
             pb_, eb = sourced(sb, TYPED_ATOMS[b], "gb")
             e = bin_(op, ea, eb)
@@ -722,7 +749,7 @@ def c10_families(tier, seed, ids=None):
     if tier == "quick":
         seqs = [[rnd.choice(ops) for _ in range(rnd.randint(3, 7))] for _ in range(1500)]
     else:
-        seqs = [[a, b] for a in ops for b in ops if hash((a[0], b[0], seed)) % 6 == 0]
+        seqs = [[a, b] for a in ops for b in ops if shash((a[0], b[0], seed)) % 6 == 0]
         seqs += [[rnd.choice(ops) for _ in range(rnd.randint(3, 12))] for _ in range(6000)]
     for k, seq in enumerate(seqs):
         strs = k % 3 == 2
